@@ -613,7 +613,14 @@ func runC12LiveSwap(c *fw.Ctx, id string, r *rand.Rand) {
 			nf = filters[(r.Intn(2)+1+indexOfFilter(cur.name))%len(filters)]
 		}
 		if err := src.SetPacketFilter(nf.spec); err != nil {
-			c.Inconclusive(fmt.Sprintf("%s: SetPacketFilter(%s): %v", id, nf.name, err))
+			if st == 0 {
+				// the very first attach on a fresh socket is refused: the environment (privileges), not the tool
+				c.Inconclusive(fmt.Sprintf("%s: SetPacketFilter(%s): %v", id, nf.name, err))
+				return
+			}
+			// the kernel took the first program from this very socket; a later one is refused only if the capture source
+			// did something to the socket in between (SO_LOCK_FILTER, a closed descriptor): the SACK run swaps its filter
+			c.Violate("C12", "live-swap-refused/"+nf.name, fmt.Sprintf("%s: after %s the capture source refuses to install the %s filter: %v", id, seq, nf.name, err), nil)
 			return
 		}
 		cur = nf
